@@ -48,12 +48,12 @@ type Block struct {
 }
 
 type Plan struct {
-	Prop   string  `json:"prop"`
-	Scheme string  `json:"scheme"` // hash | path
-	Snap   bool    `json:"snap"`   // hash scheme: legacy snapshot tree attached (flat reader)
-	Cache  bool    `json:"cache"`  // clean caches enabled
-	Gated  bool    `json:"gated"`  // disk reads are scheduler gates (prefetcher interleaving decided by the tape)
-	Blocks []Block `json:"blocks"`
+	Prop   string   `json:"prop"`
+	Scheme string   `json:"scheme"` // hash | path
+	Snap   bool     `json:"snap"`   // hash scheme: legacy snapshot tree attached (flat reader)
+	Cache  bool     `json:"cache"`  // clean caches enabled
+	Gated  bool     `json:"gated"`  // disk reads are scheduler gates (prefetcher interleaving decided by the tape)
+	Blocks []Block  `json:"blocks"`
 	Tape   []uint16 `json:"tape,omitempty"`
 }
 
@@ -222,8 +222,8 @@ func nonceDelta(v uint64) uint64 {
 var gatedShare = 0.04
 
 type genCfg struct {
-	prop                       string
-	maxBlocks, maxTxs, maxOps  int
+	prop                      string
+	maxBlocks, maxTxs, maxOps int
 }
 
 func Decode(b []byte) (any, error) {
@@ -470,24 +470,24 @@ func genOp(r *simcore.Rand, g *exec, prop string, lastStore *Op) Op {
 		wRestore = 4
 	}
 	switch r.Pick(
-		7,  // 0 add
-		5,  // 1 sub
-		2,  // 2 setbal
-		3,  // 3 nonce
-		4,  // 4 code
-		14, // 5 sstore
-		wT, // 6 tstore
-		2,  // 7 newacct
-		7,  // 8 create
-		5,  // 9 destruct
-		5,  // 10 transfer
-		2,  // 11 refund+
-		1,  // 12 refund-
-		2,  // 13 log
-		wAL, // 14 al
-		wSnap, // 15 snap
-		wRev,  // 16 revert/keep
-		12,    // 17 get
+		7,        // 0 add
+		5,        // 1 sub
+		2,        // 2 setbal
+		3,        // 3 nonce
+		4,        // 4 code
+		14,       // 5 sstore
+		wT,       // 6 tstore
+		2,        // 7 newacct
+		7,        // 8 create
+		5,        // 9 destruct
+		5,        // 10 transfer
+		2,        // 11 refund+
+		1,        // 12 refund-
+		2,        // 13 log
+		wAL,      // 14 al
+		wSnap,    // 15 snap
+		wRev,     // 16 revert/keep
+		12,       // 17 get
 		wRestore, // 18 restore a slot to its tx-start value
 		2,        // 19 touch
 	) {
